@@ -33,7 +33,7 @@ import (
 // "inf", "nan", hex, "_", and integers outside int64.
 
 var wordPool = []string{"a", "b", "abc", "0", "1", "-1", "false", "x y", "é", "A", "<BAD-TYPE>", "00", "12", "1.0", "{0}", `q"uote`, `back\slash`}
-var blankPool = []string{"", "", "", " ", "  ", "\t", " \n "}
+var blankPool = []string{"", "", "", " ", "  ", "\t", " \n ", "\v", "\f", " \v\f ", "\r\n"}
 
 func genWord(t *rapid.T, label string) string {
 	switch rapid.IntRange(0, 5).Draw(t, label+"-class") {
